@@ -66,11 +66,11 @@ CHECKS={
         "Trusted: the executor model of ros.rs (taken from the property statement), admissibility of generated arrivals (C10) and placements (C09).",
         "DESIGN.md section 4 (C04), 3.5"),
  "C05":("property-based testing (proptest): generated workloads with self-consistent bound vectors (iterated analysis) vs. the ROS 2 executor simulation",
-        "For generated workloads mixing timers, Polled(p) and PolledUnknownPrio callbacks the bound vector is iterated to a fixed point from the WCETs exactly as the property prescribes; then every instance of every callback in the canonical, the constructed (one or two callbacks just missing consecutive polling points, so that carried-in and fresh instances meet) and several generated scenarios must respond within its bound. Exploration.",
+        "For generated workloads mixing timers, Polled(p) and PolledUnknownPrio callbacks the bound vector is iterated to a fixed point from the WCETs exactly as the property prescribes; then every instance of every callback in the canonical, the constructed (one or two callbacks just missing consecutive polling points, so that carried-in and fresh instances meet) and several generated scenarios must respond within its bound; a further sub-check uses wcet::Multiframe callback costs. Exploration.",
         "Trusted: as C04; singleton subchains with externally triggered callbacks.",
         "DESIGN.md section 4 (C05), 3.5"),
  "C07":("property-based testing (proptest): generated ROS 2 analysis calls vs. brute-force evaluation of the published inequalities over every offset with a supply-bound function computed from (Q,D,P) alone",
-        "All six ROS 2 analyses (all four callback kinds, singleton and multi-callback subchains, arbitrary assumed bounds, scalar and valid multiframe costs, three supply kinds, limits at / below the result) are compared (value, Ok/Err, error payload) with a linear-scan evaluation of their defining inequalities over every offset. Exploration.",
+        "All six ROS 2 analyses (all four callback kinds, singleton and multi-callback subchains, arbitrary assumed bounds, scalar and valid multiframe costs, three supply kinds, limits at / below the result) are compared (value, Ok/Err) with a linear-scan evaluation of their defining inequalities over every offset; a panic of an analysis (e.g. the crate's debug-only cross-checks) is a violation. Exploration.",
         "Trusted: the harness' transcription of Lemmas 1,3,4/5,8 and Def. 1-3,5, Lemma 18, Theorems 2/3 (0 mismatches on the unchanged tree); request/arrival/cost bounds as black boxes; cost models that are valid bounds on every run of consecutive jobs.",
         "DESIGN.md section 4 (C07), 3.6"),
  "C17":("property-based testing (proptest), metamorphic: generated base systems and single-parameter hardenings",
